@@ -476,3 +476,225 @@ pub fn gen_soup(rng: &mut Rng) -> String {
     }
     s
 }
+
+// ------------------------------------------------------------------------------------------
+// Layout renderer that also reports, per statement, the exact text it wrote and its byte span
+// (C17's `renderStatement` oracle; also used by the source-level debugger sessions of C15).
+
+/// What the renderer knows about one `Item::Stmt` of the abstract program.
+#[derive(Clone, Debug)]
+pub struct StmtInfo {
+    /// index into `Prog::items`
+    pub item: usize,
+    /// byte span in the rendered text: first byte of the mnemonic/directive token … one past the
+    /// last byte of the last operand token
+    pub start: usize,
+    pub end: usize,
+    /// the text written in that span: mnemonic or directive through the last operand, inner
+    /// separators (and comments between operands) included; no label, no trailing comment
+    pub text: String,
+    /// number of memory words the statement produces
+    pub words: usize,
+    /// index of its first word in the image
+    pub first_word: usize,
+}
+
+#[derive(Clone, Debug, Default)]
+pub struct Rendered {
+    pub text: String,
+    pub stmts: Vec<StmtInfo>,
+    /// origin according to the abstract program (default 0x3000)
+    pub orig: u16,
+    /// label name → index of the word it marks
+    pub labels: Vec<(String, usize)>,
+    /// word indices before which a `.break` stands
+    pub breaks: Vec<usize>,
+    /// total number of words
+    pub nwords: usize,
+}
+
+impl Rendered {
+    /// `renderStatement` per image word: the text of the statement that produced word `i`.
+    pub fn word_texts(&self) -> Vec<String> {
+        let mut v = Vec::new();
+        for s in &self.stmts {
+            for _ in 0..s.words {
+                v.push(s.text.clone());
+            }
+        }
+        v
+    }
+}
+
+/// `unescape` as documented in DESIGN.md I2 (five escapes, unknown ones kept verbatim).
+pub fn unescape_len(s: &str) -> usize {
+    let cs: Vec<char> = s.chars().collect();
+    let mut i = 0;
+    let mut n = 0;
+    while i < cs.len() {
+        if cs[i] == '\\' {
+            if i + 1 < cs.len() {
+                n += if matches!(cs[i + 1], 'n' | 't' | 'r' | '\\' | '"') { 1 } else { 2 };
+                i += 2;
+            } else {
+                n += 1;
+                i += 1;
+            }
+        } else {
+            n += 1;
+            i += 1;
+        }
+    }
+    n
+}
+
+/// Number of words a statement of the abstract program produces (`None`: not determined by the
+/// abstract program, e.g. a malformed operand).
+pub fn stmt_words(op: &str, args: &[Operand]) -> Option<usize> {
+    match op {
+        ".blkw" => match args.first() {
+            Some(Operand::Imm(n)) if *n >= 0 => Some((*n & 0xFFFF) as usize),
+            _ => None,
+        },
+        ".stringz" => match args.first() {
+            Some(Operand::Str(s)) => Some(unescape_len(s) + 1),
+            _ => None,
+        },
+        _ => Some(1),
+    }
+}
+
+/// How much freedom the layout takes.
+#[derive(Clone, Copy, PartialEq)]
+pub enum Style {
+    /// one statement per line, single spaces
+    Plain,
+    /// the whole white-space set, commas, colons after labels, comments (also between operands),
+    /// several statements on a line, multi-byte characters in comments
+    Wild,
+}
+
+/// `comment` = a comment may stand between the two tokens (not between a data directive and its
+/// operand: the preprocessor reads the operand with `advance_real`, which skips white space only).
+fn inner_sep_c(rng: &mut Rng, st: Style, comment: bool) -> String {
+    let s = inner_sep(rng, st);
+    if comment || !s.contains(';') {
+        s
+    } else {
+        " ".into()
+    }
+}
+
+fn inner_sep(rng: &mut Rng, st: Style) -> String {
+    if st == Style::Plain {
+        return " ".into();
+    }
+    let mut s = String::new();
+    let m = if rng.chance(1, 6) { 3 } else { 1 };
+    let k = 1 + rng.below(m);
+    for _ in 0..k {
+        s.push_str(pk(rng, SEPS));
+    }
+    if rng.chance(1, 25) {
+        // a comment between two operands (I12: preceded by white space), then the rest on a new line
+        s.push_str(&gen_comment(rng));
+        s.push('\n');
+        if rng.chance(1, 2) {
+            s.push_str(pk(rng, &[" ", "\t", "  ", ","]));
+        }
+    } else if rng.chance(1, 25) {
+        s.push_str(pk(rng, &["\n", "\r\n", "\n\t"]));
+    }
+    s
+}
+
+fn stmt_sep(rng: &mut Rng, st: Style) -> String {
+    if st == Style::Plain {
+        return "\n".into();
+    }
+    let mut s = String::new();
+    if rng.chance(1, 10) {
+        // next statement on the same line
+        s.push_str(pk(rng, &[" ", "  ", "\t", ", ", " : "]));
+        return s;
+    }
+    if rng.chance(1, 4) {
+        s.push_str(pk(rng, &[" ", "\t", "  "]));
+        s.push_str(&gen_comment(rng));
+    }
+    s.push_str(pk(rng, &["\n", "\n", "\n", "\r\n", "\n\n", "\n  \n", "\n\t", "\n    "]));
+    s
+}
+
+/// Render `p`, recording statement spans.  `lead` = text allowed before the first token.
+pub fn render_spans(rng: &mut Rng, p: &Prog, st: Style, lead: bool) -> Rendered {
+    let mut r = Rendered { orig: 0x3000, ..Default::default() };
+    let mut s = String::new();
+    if lead && st == Style::Wild && rng.chance(1, 2) {
+        s.push_str(pk(rng, &["\n", "  ", "\n\n", "; header é\n", "\t", "\r\n", ";\n"]));
+    }
+    let mut word = 0usize;
+    let mut orig_seen = false;
+    for (idx, it) in p.items.iter().enumerate() {
+        match it {
+            Item::Orig(v) => {
+                s.push_str(&if st == Style::Plain { ".orig".to_string() } else { rand_case(rng, ".orig") });
+                s.push_str(&inner_sep(rng, st));
+                s.push_str(&spell_lit(rng, *v));
+                if !orig_seen {
+                    r.orig = (*v & 0xFFFF) as u16;
+                    orig_seen = true;
+                }
+                s.push_str(&stmt_sep(rng, st));
+            }
+            Item::Break => {
+                s.push_str(&if st == Style::Plain { ".break".to_string() } else { rand_case(rng, ".break") });
+                if !r.breaks.contains(&word) {
+                    r.breaks.push(word);
+                }
+                s.push_str(&stmt_sep(rng, st));
+            }
+            Item::End => {
+                s.push_str(&if st == Style::Plain { ".end".to_string() } else { rand_case(rng, ".end") });
+                s.push_str(&stmt_sep(rng, st));
+                if st == Style::Wild && rng.chance(1, 2) {
+                    // nothing after `.end` is read
+                    let junk = pk(rng, &["add r0 r0", "\"open", "é€ x", ".fill", "lbl lbl lbl\n"]);
+                    s.push_str(junk);
+                }
+                break;
+            }
+            Item::Stmt { labels, op, args } => {
+                for l in labels {
+                    s.push_str(l);
+                    r.labels.push((l.clone(), word));
+                    if st == Style::Wild && rng.chance(1, 3) {
+                        s.push(':');
+                        if rng.chance(1, 2) {
+                            s.push_str(pk(rng, &[" ", "\n", "\t", " \n  "]));
+                        }
+                    } else if st == Style::Wild && rng.chance(1, 6) {
+                        s.push_str(pk(rng, &["\n", "\n\t", " ; c\n", "\r\n"]));
+                    } else {
+                        s.push_str(&inner_sep(rng, st));
+                    }
+                }
+                let start = s.len();
+                s.push_str(&if st == Style::Plain { op.clone() } else { rand_case(rng, op) });
+                for a in args {
+                    s.push_str(&inner_sep_c(rng, st, !op.starts_with('.')));
+                    s.push_str(&spell_operand(rng, a));
+                }
+                let end = s.len();
+                let words = stmt_words(op, args).unwrap_or(1);
+                r.stmts.push(StmtInfo { item: idx, start, end, text: s[start..end].to_string(), words, first_word: word });
+                word += words;
+                s.push_str(&stmt_sep(rng, st));
+            }
+        }
+    }
+    r.nwords = word;
+    r.breaks.sort();
+    r.text = s;
+    r
+}
